@@ -163,3 +163,34 @@ Fixpoint load_many_go (E : rxenv) (t : bt) (fuel : nat) (pre rest : list N) : op
 
 Definition load_many (E : rxenv) (t : bt) (text : list N) : option (list value) :=
   load_many_go E t (S (length text)) [] text.
+
+(* ---- `Model: v*=V; V: R0 | R1 | ...; Ri: v=Ti;` : at every item the alternatives are tried in order after
+   skipping whitespace.  Result per item: (index of the alternative, value, start, end) *)
+Fixpoint first_alt (E : rxenv) (ts : list bt) (k : nat) (pre rest : list N) : option (nat * bt * nat) :=
+  match ts with
+  | [] => None
+  | t :: ts' => match bt_match E t pre rest with
+                | Some (leaf, n) => Some (k, leaf, n)
+                | None => first_alt E ts' (S k) pre rest
+                end
+  end.
+
+Fixpoint load_alts_go (E : rxenv) (ts : list bt) (fuel : nat) (pre rest : list N)
+  : option (list (nat * value * nat * nat)) :=
+  match fuel with
+  | O => None
+  | S f =>
+    let '(pre1, rest1) := skip_ws pre rest in
+    match first_alt E ts O pre1 rest1 with
+    | Some (k, leaf, n) =>
+        let '(pre2, rest2) := take_rev n pre1 rest1 in
+        match load_alts_go E ts f pre2 rest2 with
+        | Some vs => Some ((k, convert leaf (firstn n rest1), length pre1, length pre1 + n) :: vs)
+        | None => None
+        end
+    | None => match rest1 with [] => Some [] | _ => None end
+    end
+  end.
+
+Definition load_alts (E : rxenv) (ts : list bt) (text : list N) : option (list (nat * value * nat * nat)) :=
+  load_alts_go E ts (S (length text)) [] text.
